@@ -459,7 +459,7 @@ def fict_play(ctx, thorough):
                  sample={"class": inp["class"], "A": A, "B": B, "gain": gain, "init": init, "impl_last": [out[0][-1].tolist(), out[1][-1].tolist()]})
         ctx.count("FP:%s" % ("stochastic" if stochastic else "plain"))
         ctx.count("FP:gain=%s" % gain)
-        ctx.count("FP:compare=%s" % ("exact" if exact else "1e-12"))
+        ctx.count("FP:ts%s" % ("<=12" if ts <= 12 else ("<=60" if ts <= 60 else "=200")))
         # oracle: probability vectors; update (1-s) old + s e_br with br a best response to the OLD beliefs
         ok = True
         for j in range(ts):
@@ -496,11 +496,14 @@ def fict_play(ctx, thorough):
                              for j in range(max(ts - 1, 0))) + "]"
         if ts <= 1:
             pl = "(@nil (option (list Q * list Q)))"
-        cases.append(tup(qmat(A), qmat(B), optq(gain), qlit(tolq), qlist([frac(x) for x in x0]), qlist([frac(x) for x in x1]), zlit(t_init), pl,
-                         blit(exact), qmat(out[0].tolist()), qmat(out[1].tolist())))
-        meta.append(inp)
-        if dyadic or gain is None:
-            # float instance, bit-exact (payoff vectors of at most 4 small-integer terms: the matrix-vector product is exact)
+        if exact or ts <= 12:
+            # exact instance: equality on dyadic data, 1e-12 otherwise (short runs: exact rationals grow with every period)
+            cases.append(tup(qmat(A), qmat(B), optq(gain), qlit(tolq), qlist([frac(x) for x in x0]), qlist([frac(x) for x in x1]), zlit(t_init), pl,
+                             blit(exact), qmat(out[0].tolist()), qmat(out[1].tolist())))
+            meta.append(inp)
+            ctx.count("FP:Q-instance")
+        if True:
+            # float instance, bit-exact, every case and every length (same operations in source order)
             fpl = pl.replace("(@nil (option (list Q * list Q)))", "(@nil (option (list float * list float)))")
             if perts is not None:
                 fpl = "[" + "; ".join("(Some (%s, %s))" % (flist(perts[j][0]), flist(perts[j][1])) for j in range(ts - 1)) + "]" if ts > 1 else fpl
